@@ -1,8 +1,10 @@
-(* C17 -- lemmas about the monomorphisation model (Model/Mono.v). *)
+(* C17 -- lemmas about the monomorphisation model (Model/Mono.v, repaired code). *)
 From Aelys Require Import Base.Tactics Model.AirLower Model.Mono.
 Local Open Scope N_scope.
 
 Definition T_STR : ty := TPrim 11.
+Definition T_BOOL : ty := TPrim 10.
+Definition T_F64 : ty := TPrim 9.
 Definition one_block : list block := [(0, TRet)].
 
 (* fn identity<T>(x: T) -> T { return x }            name 0
@@ -23,85 +25,54 @@ Definition w_structinit : mprog :=
         mkmfn (NPlain 1) [] [] T_I64 [(0, T_I64)] [MCall (NPlain 2) [AConst T_I64]] one_block]
        [mkms (NPlain 5) [] [T_I64; T_I64]] [].
 
-(* struct Box<T> { v: T } (name 6);  fn caller() { let b: Box = ... } *)
+(* struct Box<T> { v: T } (name 6);  fn caller() { let b: Box = ... }   -- KF-C17-5, still open *)
 Definition w_generic_struct : mprog :=
   mkmp [mkmfn (NPlain 1) [] [] T_I64 [(0, TStruct 6)] [] one_block]
        [mkms (NPlain 6) [0] [TParam 0]] [].
 
 (* fn wrap<T>(x: T) -> T { return identity(x) } (name 3);  fn caller() { wrap(3) } *)
+Definition f_wrap : mfn :=
+  mkmfn (NPlain 3) [0] [(0, TParam 0)] (TParam 0) [(0, TParam 0); (1, TParam 0)]
+        [MCall (NPlain 0) [ALocal 0]] one_block.
 Definition w_generic_calls_generic : mprog :=
-  mkmp [f_identity;
-        mkmfn (NPlain 3) [0] [(0, TParam 0)] (TParam 0) [(0, TParam 0); (1, TParam 0)]
-              [MCall (NPlain 0) [ALocal 0]] one_block;
+  mkmp [f_identity; f_wrap;
         mkmfn (NPlain 1) [] [] T_I64 [(0, T_I64)] [MCall (NPlain 3) [AConst T_I64]] one_block]
        [] [].
 
-(* one instantiation only: everything is fine *)
-Definition w_single : mprog :=
-  mkmp [f_identity;
-        mkmfn (NPlain 1) [] [] T_I64 [(0, T_I64); (1, T_I64)]
-              [MCall (NPlain 0) [ALocal 0]; MCall (NPlain 0) [AConst T_I64]] one_block]
-       [] [].
+(* the former counterexamples (KF-C17-3, -4, -6): all clauses hold now, and each call site
+   targets the instance made for its own argument types *)
+Lemma two_types_repaired :
+  wf_mono w_two_types (monomorphize w_two_types) = true
+  /\ flat_map (fun f => flat_map stmt_obs (m_body f)) (p_fns (monomorphize w_two_types))
+     = [CInst 0 [T_I64]; CInst 0 [T_STR]].
+Proof. vm_compute. split; reflexivity. Qed.
 
-Definition i_int : inst := mkinst 0 [T_I64] (NMono 0 [T_I64]).
-Definition i_str : inst := mkinst 0 [T_STR] (NMono 0 [T_STR]).
+Lemma structinit_repaired :
+  wf_mono w_structinit (monomorphize w_structinit) = true
+  /\ flat_map (fun f => flat_map stmt_obs (m_body f)) (p_fns (monomorphize w_structinit))
+     = [CInst 2 [T_I64]; SPlain 5].
+Proof. vm_compute. split; reflexivity. Qed.
 
-Lemma first_instance_witness :
-  forall pick, pick_sound pick -> wf_mono w_two_types (monomorphize pick w_two_types) = false.
-Proof.
-  intros pick Hs.
-  destruct (Hs 0 [i_int; i_str]) as [i [Hp Hin]]; [discriminate|].
-  unfold monomorphize.
-  replace (fst (mono_insts w_two_types)) with [i_int; i_str] by (vm_compute; reflexivity).
-  change (choices pick [i_int; i_str]) with [(0, pick 0 [i_int; i_str])].
-  rewrite Hp.
-  destruct Hin as [<-|[<-|[]]]; vm_compute; reflexivity.
-Qed.
-
-Lemma structinit_witness :
-  forall pick, wf_mono w_structinit (monomorphize pick w_structinit) = false
-  /\ forallb (structs_exist_fn (monomorphize pick w_structinit)) (p_fns (monomorphize pick w_structinit)) = false.
-Proof.
-  intro pick. unfold monomorphize.
-  replace (fst (mono_insts w_structinit)) with [mkinst 2 [T_I64] (NMono 2 [T_I64])] by (vm_compute; reflexivity).
-  change (choices pick [mkinst 2 [T_I64] (NMono 2 [T_I64])])
-    with [(2, pick 2 [mkinst 2 [T_I64] (NMono 2 [T_I64])])].
-  destruct (pick 2 _) as [i|]; vm_compute; split; reflexivity.
-Qed.
+Lemma generic_calls_generic_repaired :
+  wf_mono w_generic_calls_generic (monomorphize w_generic_calls_generic) = true
+  /\ map (fun i => (i_base i, i_args i)) (p_insts (monomorphize w_generic_calls_generic))
+     = [(3, [T_I64]); (0, [T_I64])].
+Proof. vm_compute. split; reflexivity. Qed.
 
 Lemma generic_struct_witness :
-  forall pick, wf_mono w_generic_struct (monomorphize pick w_generic_struct) = false
-  /\ reachable_fields_closed (monomorphize pick w_generic_struct) = false.
-Proof. intro pick. vm_compute. split; reflexivity. Qed.
+  wf_mono w_generic_struct (monomorphize w_generic_struct) = false
+  /\ reachable_fields_closed (monomorphize w_generic_struct) = false.
+Proof. vm_compute. split; reflexivity. Qed.
 
-Lemma generic_calls_generic_witness :
-  forall pick, pick_sound pick ->
-  wf_mono w_generic_calls_generic (monomorphize pick w_generic_calls_generic) = false.
-Proof.
-  intros pick Hs.
-  destruct (Hs 3 [mkinst 3 [T_I64] (NMono 3 [T_I64])]) as [i [Hp Hin]]; [discriminate|].
-  unfold monomorphize.
-  replace (fst (mono_insts w_generic_calls_generic)) with [mkinst 3 [T_I64] (NMono 3 [T_I64])]
-    by (vm_compute; reflexivity).
-  change (choices pick [mkinst 3 [T_I64] (NMono 3 [T_I64])])
-    with [(3, pick 3 [mkinst 3 [T_I64] (NMono 3 [T_I64])])].
-  rewrite Hp. destruct Hin as [<-|[]]. vm_compute; reflexivity.
-Qed.
-
-Lemma single_witness : wf_mono w_single (monomorphize pick_first w_single) = true.
-Proof. vm_compute. reflexivity. Qed.
-
-(* ====================================================================================== *)
-(* ---- a bounded family of programs without the other root causes: three generic functions
-   (no struct literals, no calls inside them), no generic struct, one caller with <= 3 call sites *)
-Definition T_BOOL : ty := TPrim 10.
-Definition T_F64 : ty := TPrim 9.
+(* ---- a bounded family: four generic functions (one calling another, one with a struct literal),
+   one caller with <= 3 call sites over 21 statement shapes, no generic struct *)
 Definition g_id : mfn := f_identity.                                             (* name 0 *)
 Definition g_pick : mfn :=                                                        (* name 2 *)
-  mkmfn (NPlain 2) [0; 1] [(0, TParam 0); (1, TParam 1)] (TParam 0) [(0, TParam 0); (1, TParam 1)] [] one_block.
-Definition g_first : mfn :=                                                       (* name 3 *)
-  mkmfn (NPlain 3) [0] [(0, TSlice (TParam 0))] (TParam 0) [(0, TSlice (TParam 0)); (1, TParam 0)]
-        [MCast (TParam 0) T_I64] one_block.
+  mkmfn (NPlain 2) [0; 1] [(0, TParam 0); (1, TParam 1)] (TParam 0) [(0, TParam 0); (1, TParam 1)]
+        [MInit (NPlain 5)] one_block.
+Definition g_first : mfn :=                                                       (* name 4 *)
+  mkmfn (NPlain 4) [0] [(0, TSlice (TParam 0))] (TParam 0) [(0, TSlice (TParam 0)); (1, TParam 0)]
+        [MCast (TParam 0) T_I64; MCall (NPlain 3) [ALocal 1]] one_block.
 
 Definition caller_locals : list (N * ty) :=
   [(0, T_I64); (1, T_STR); (2, T_BOOL); (3, T_F64); (4, TSlice T_I64); (5, TSlice T_STR)].
@@ -109,94 +80,186 @@ Definition calls : list mstmt :=
   map (fun k => MCall (NPlain 0) [ALocal k]) [0; 1; 2; 3]
   ++ [MCall (NPlain 0) [AConst T_I64]; MCall (NPlain 0) [AConst T_STR]]
   ++ flat_map (fun a => map (fun b => MCall (NPlain 2) [ALocal a; ALocal b]) [0; 1; 2]) [0; 1; 2]
-  ++ [MCall (NPlain 3) [ALocal 4]; MCall (NPlain 3) [ALocal 5]; MCall (NPlain 9) [ALocal 0]].
+  ++ [MCall (NPlain 4) [ALocal 4]; MCall (NPlain 4) [ALocal 5]; MCall (NPlain 9) [ALocal 0];
+      MCall (NPlain 3) [ALocal 1]; MCall (NPlain 3) [ALocal 3]; MInit (NPlain 5)].
 Definition bodies : list (list mstmt) :=
   [[]] ++ map (fun a => [a]) calls
   ++ flat_map (fun a => map (fun b => [a; b]) calls) calls
   ++ flat_map (fun a => flat_map (fun b => map (fun c => [a; b; c]) calls) calls) calls.
 Definition prog_with (body : list mstmt) : mprog :=
-  mkmp [g_id; g_pick; g_first; mkmfn (NPlain 1) [] [] T_I64 caller_locals body one_block] [] [].
-
-(* every sound choice on lists of <= 4 instances behaves like one of these *)
-Definition pick_nth (i : nat) (_ : N) (l : list inst) : option inst :=
-  match nth_error l i with Some x => Some x | None => hd_error l end.
-
-(* "single instantiation": no generic function is requested at two different keys *)
-Definition single_inst (p : mprog) : bool :=
-  let reqs := requests (p_fns p) in
-  forallb (fun r => forallb (fun r' => negb (fst r =? fst r') || tylist_eqb (key (snd r)) (key (snd r'))) reqs) reqs.
+  mkmp [g_id; g_pick; f_wrap; g_first; mkmfn (NPlain 1) [] [] T_I64 caller_locals body one_block]
+       [mkms (NPlain 5) [] [T_I64; T_I64]] [].
 
 Definition mono_sweep_body (b : list mstmt) : bool :=
-  let p := prog_with b in
-  forallb (fun i => Bool.eqb (wf_mono p (monomorphize (pick_nth i) p)) (single_inst p)) [0; 1; 2]%nat.
-
+  wf_mono (prog_with b) (monomorphize (prog_with b)).
 
 Lemma mono_sweep_true : forallb mono_sweep_body bodies = true.
 Proof. vm_cast_no_check (eq_refl true). Qed.
 
-Lemma mono_family_size : fold_left (fun a _ => a + 1) bodies 0 = 6175.
+Lemma mono_family_size : fold_left (fun a _ => a + 1) bodies 0 = 9724.
 Proof. vm_compute. reflexivity. Qed.
 
-Lemma pick_nth_sound i : pick_sound (pick_nth i).
-Proof.
-  intros n l Hl. unfold pick_nth. destruct (nth_error l i) as [x|] eqn:E.
-  - exists x. split; [reflexivity|]. eapply nth_error_In; eassumption.
-  - destruct l as [|x r]; [congruence|]. exists x. split; [reflexivity|left; reflexivity].
-Qed.
+Lemma mono_sweep_spec : forall b, In b bodies ->
+  wf_mono (prog_with b) (monomorphize (prog_with b)) = true.
+Proof. intros b Hb. exact (proj1 (forallb_forall _ _) mono_sweep_true b Hb). Qed.
 
-(* on the family, for each of the three choice functions: the monomorphised program satisfies all
-   clauses exactly when no generic function is requested at two different type-argument keys *)
-Lemma mono_sweep_spec : forall b i, In b bodies -> In i [0; 1; 2]%nat ->
-  wf_mono (prog_with b) (monomorphize (pick_nth i) (prog_with b)) = single_inst (prog_with b).
-Proof.
-  intros b i Hb Hi.
-  pose proof (proj1 (forallb_forall _ _) mono_sweep_true b Hb) as H1.
-  unfold mono_sweep_body in H1. cbv zeta in H1.
-  pose proof (proj1 (forallb_forall _ _) H1 i Hi) as H2. cbv beta in H2.
-  apply Bool.eqb_prop in H2. exact H2.
-Qed.
+(* ====================================================================================== *)
+(* UNBOUNDED lemmas *)
 
-(* ---- unbounded: monomorphisation never invents a CFG: every function of the result has the
-   block list of some function of the input *)
 Lemma generic_fn_In fs n g : generic_fn fs n = Some g -> In g fs.
 Proof. unfold generic_fn. intro H. apply find_some in H. apply in_rev. apply H. Qed.
 
-Lemma instantiate_blocks fs : forall reqs done newf,
-  (forall f, In f newf -> exists g, In g fs /\ m_blocks f = m_blocks g) ->
-  forall f, In f (snd (instantiate fs reqs done newf)) -> exists g, In g fs /\ m_blocks f = m_blocks g.
+(* what instantiate adds: instances of functions of [fs], one per recorded inst, same name *)
+Definition inst_fn_ok (fs : list mfn) (f : mfn) : Prop :=
+  exists g n ta, In g fs /\ f = instance_of g n ta.
+Definition insts_named (done : list inst) (newf : list mfn) : Prop :=
+  forall i, In i done -> exists f, In f newf /\ m_name f = NMono (i_base i) (key (i_args i)).
+
+Lemma instantiate_spec fs : forall reqs done newf,
+  Forall (inst_fn_ok fs) newf ->
+  Forall (inst_fn_ok fs) (snd (instantiate fs reqs done newf))
+  /\ (forall acc, insts_named done (acc ++ newf) ->
+        insts_named (fst (instantiate fs reqs done newf)) (acc ++ snd (instantiate fs reqs done newf))).
 Proof.
-  induction reqs as [|[n ta] r IH]; intros done newf Hn f Hf; cbn [instantiate] in Hf.
-  - apply Hn. exact Hf.
-  - destruct (has_inst done n (key ta)).
-    + eapply IH; eassumption.
-    + destruct (generic_fn fs n) as [g|] eqn:Eg.
-      * eapply IH; [|exact Hf]. intros f' Hf'. apply in_app_or in Hf' as [Hf'|[<-|[]]].
-        -- apply Hn. exact Hf'.
-        -- exists g. split; [eapply generic_fn_In; eassumption|reflexivity].
-      * eapply IH; eassumption.
+  induction reqs as [|[n ta] r IH]; intros done newf Hn; cbn [instantiate].
+  - split; [exact Hn|intros acc H; exact H].
+  - destruct (has_inst done n (key ta)); [apply IH; exact Hn|].
+    destruct (generic_fn fs n) as [g|] eqn:Eg; [|apply IH; exact Hn].
+    assert (Hn' : Forall (inst_fn_ok fs) (newf ++ [instance_of g n ta])).
+    { apply Forall_app. split; [exact Hn|]. constructor; [|constructor].
+      exists g, n, ta. split; [eapply generic_fn_In; eassumption|reflexivity]. }
+    destruct (IH (done ++ [mkinst n ta (NMono n (key ta))]) _ Hn') as [A B]. split; [exact A|].
+    intros acc H. apply B. intros i Hi. apply in_app_or in Hi as [Hi|[<-|[]]].
+    + destruct (H i Hi) as [f [Hf Hm]]. exists f. split; [|exact Hm].
+      rewrite app_assoc. apply in_or_app. left. exact Hf.
+    + exists (instance_of g n ta). split; [|reflexivity].
+      apply in_or_app. right. apply in_or_app. right. left. reflexivity.
 Qed.
 
-Lemma rewrite_fn_blocks tab f : m_blocks (rewrite_fn tab f) = m_blocks f.
+Lemma rounds_spec fs : forall fuel reqs done allnew,
+  Forall (inst_fn_ok fs) allnew -> insts_named done allnew ->
+  Forall (inst_fn_ok fs) (snd (rounds fuel fs reqs done allnew))
+  /\ insts_named (fst (rounds fuel fs reqs done allnew)) (snd (rounds fuel fs reqs done allnew)).
+Proof.
+  induction fuel as [|k IH]; intros reqs done allnew Hf Hn; cbn [rounds].
+  - split; assumption.
+  - destruct (instantiate fs reqs done []) as [done' newf] eqn:E.
+    destruct (instantiate_spec fs reqs done [] (Forall_nil _)) as [A B]. rewrite E in A, B. cbn [fst snd] in A, B.
+    specialize (B allnew). rewrite app_nil_r in B. specialize (B Hn).
+    destruct newf as [|f0 r0].
+    + rewrite app_nil_r in B. split; assumption.
+    + apply IH; [apply Forall_app; split; assumption|exact B].
+Qed.
+
+Lemma mono_insts_spec p :
+  Forall (inst_fn_ok (p_fns p)) (snd (mono_insts p))
+  /\ insts_named (fst (mono_insts p)) (snd (mono_insts p)).
+Proof. unfold mono_insts. apply rounds_spec; [constructor|intros i []]. Qed.
+
+Lemma rewrite_fn_blocks fs insts f : m_blocks (rewrite_fn fs insts f) = m_blocks f.
 Proof. unfold rewrite_fn. destruct (is_generic f); reflexivity. Qed.
 
-Lemma mono_preserves_blocks pick p f :
-  In f (p_fns (monomorphize pick p)) -> exists g, In g (p_fns p) /\ m_blocks f = m_blocks g.
+(* monomorphisation never invents a CFG *)
+Lemma mono_preserves_blocks p f :
+  In f (p_fns (monomorphize p)) -> exists g, In g (p_fns p) /\ m_blocks f = m_blocks g.
 Proof.
-  unfold monomorphize, mono_finish.
-  destruct (mono_insts p) as [insts newf] eqn:E. cbn [p_fns].
+  unfold monomorphize. destruct (mono_insts_spec p) as [Hf _].
+  destruct (mono_insts p) as [insts newf]. cbn [fst snd p_fns] in *.
   intro H. apply filter_In in H as [H _]. apply in_map_iff in H as [f0 [<- H0]].
   rewrite rewrite_fn_blocks. apply in_app_or in H0 as [H0|H0].
   - exists f0. split; [exact H0|reflexivity].
-  - unfold mono_insts in E.
-    apply (instantiate_blocks (p_fns p) (requests (p_fns p)) [] []); [intros ? []|].
-    rewrite E. exact H0.
+  - rewrite Forall_forall in Hf. destruct (Hf f0 H0) as (g & n & ta & Hg & ->).
+    exists g. split; [exact Hg|reflexivity].
 Qed.
 
-Lemma mono_preserves_cfg pick p :
+Lemma mono_preserves_cfg p :
   forallb (fun f => wf_cfg (m_blocks f)) (p_fns p) = true ->
-  forallb (fun f => wf_cfg (m_blocks f)) (p_fns (monomorphize pick p)) = true.
+  forallb (fun f => wf_cfg (m_blocks f)) (p_fns (monomorphize p)) = true.
 Proof.
   intro H. apply forallb_forall. intros f Hf.
-  destruct (mono_preserves_blocks pick p f Hf) as [g [Hg ->]].
+  destruct (mono_preserves_blocks p f Hf) as [g [Hg ->]].
   rewrite forallb_forall in H. apply H. exact Hg.
+Qed.
+
+(* ---- every redirected call targets the instance made for exactly its argument types *)
+Scheme ty_ind' := Induction for ty Sort Prop with tys_ind' := Induction for tys Sort Prop.
+Combined Scheme ty_mutind from ty_ind', tys_ind'.
+
+Lemma ty_eqb_refl : (forall t, ty_eqb t t = true) /\ (forall l, tys_eqb l l = true).
+Proof.
+  apply ty_mutind; intros; cbn [ty_eqb tys_eqb]; rewrite ?N.eqb_refl; try reflexivity;
+    repeat match goal with H : _ = true |- _ => rewrite H end; reflexivity.
+Qed.
+Lemma tylist_eqb_refl l : tylist_eqb l l = true.
+Proof. induction l as [|t r IH]; cbn; [reflexivity|]. rewrite (proj1 ty_eqb_refl), IH. reflexivity. Qed.
+
+Definition plain_stmt (s : mstmt) : bool :=
+  match s with MCall (NMono _ _) _ => false | _ => true end.
+Definition plain_prog (p : mprog) : bool := forallb (fun f => forallb plain_stmt (m_body f)) (p_fns p).
+
+Lemma subst_stmt_plain tp ta s : plain_stmt s = true -> plain_stmt (subst_stmt tp ta s) = true.
+Proof. destruct s as [[n|n k] args| |]; cbn; auto. Qed.
+
+Lemma find_exists {A} (f : A -> bool) l x : In x l -> f x = true -> exists y, find f l = Some y.
+Proof.
+  induction l as [|a r IH]; intros Hin Hf; [contradiction|]. cbn. destruct (f a) eqn:E.
+  - exists a. reflexivity.
+  - destruct Hin as [->|Hin]; [congruence|]. apply IH; assumption.
+Qed.
+
+Lemma infer_rewrite_fn fs insts g f args :
+  infer_type_args g (rewrite_fn fs insts f) args = infer_type_args g f args.
+Proof. unfold rewrite_fn. destruct (is_generic f); reflexivity. Qed.
+
+Theorem mono_redirected_calls_exact p f n k args :
+  plain_prog p = true ->
+  In f (p_fns (monomorphize p)) -> In (MCall (NMono n k) args) (m_body f) ->
+  call_exact p (monomorphize p) f (MCall (NMono n k) args) = true.
+Proof.
+  intros Hplain Hf Hs.
+  pose proof Hf as Hf0. unfold monomorphize in Hf0.
+  destruct (mono_insts_spec p) as [Hinst Hnamed].
+  remember (monomorphize p) as q eqn:Eq. unfold monomorphize in Eq.
+  destruct (mono_insts p) as [insts newf]. cbn [fst snd] in *.
+  cbn [p_fns] in Hf0. apply filter_In in Hf0 as [Hf0 Hng].
+  apply in_map_iff in Hf0 as [f0 [Ef H0]].
+  assert (Hng0 : is_generic f0 = false).
+  { subst f. unfold rewrite_fn in Hng. destruct (is_generic f0) eqn:E; [|reflexivity].
+    rewrite E in Hng. discriminate. }
+  (* the body of f0 is plain *)
+  assert (Hpl0 : forallb plain_stmt (m_body f0) = true).
+  { apply in_app_or in H0 as [H0|H0].
+    - unfold plain_prog in Hplain. rewrite forallb_forall in Hplain. apply Hplain. exact H0.
+    - rewrite Forall_forall in Hinst. destruct (Hinst f0 H0) as (g & n' & ta & Hg & ->).
+      cbn [instance_of m_body]. apply forallb_forall. intros s Hs'.
+      apply in_map_iff in Hs' as [s0 [<- Hs0]]. apply subst_stmt_plain.
+      unfold plain_prog in Hplain. rewrite forallb_forall in Hplain.
+      specialize (Hplain g Hg). rewrite forallb_forall in Hplain. apply Hplain. exact Hs0. }
+  (* the statement comes from rewriting a plain one *)
+  assert (Hbody : m_body f = map (rewrite_stmt (p_fns p) insts f0) (m_body f0)).
+  { subst f. unfold rewrite_fn. rewrite Hng0. reflexivity. }
+  rewrite Hbody in Hs. apply in_map_iff in Hs as [s0 [Es Hs0]].
+  rewrite forallb_forall in Hpl0. specialize (Hpl0 s0 Hs0).
+  destruct s0 as [[n0|n0 k0] args0| |]; cbn in Hpl0; try discriminate; cbn [rewrite_stmt] in Es; try discriminate.
+  destruct (generic_fn (p_fns p) n0) as [g|] eqn:Eg; [|discriminate].
+  destruct (infer_type_args g f0 args0) as [ta|] eqn:Ei; [|discriminate].
+  destruct (has_inst insts n0 (key ta)) eqn:Eh; [|discriminate].
+  inversion Es; subst n k args. clear Es.
+  cbn [call_exact]. rewrite Eg.
+  (* the instance exists in the result *)
+  assert (Hfind : exists y, find_fn q (NMono n0 (key ta)) = Some y).
+  { unfold has_inst in Eh. apply existsb_exists in Eh as [i [Hi Hb]].
+    apply andb_true_iff in Hb as [Hb1 Hb2]. apply N.eqb_eq in Hb1.
+    destruct (Hnamed i Hi) as [fi [Hfi Hname]].
+    rewrite Forall_forall in Hinst. destruct (Hinst fi Hfi) as (g' & n' & ta' & Hg' & Efi).
+    unfold find_fn. subst q. cbn [p_fns].
+    apply find_exists with (x := rewrite_fn (p_fns p) insts fi).
+    - apply filter_In. split.
+      + apply in_map. apply in_or_app. right. exact Hfi.
+      + subst fi. reflexivity.
+    - assert (m_name (rewrite_fn (p_fns p) insts fi) = m_name fi)
+        by (unfold rewrite_fn; destruct (is_generic fi); reflexivity).
+      rewrite H, Hname, Hb1. cbn [name_eqb]. rewrite N.eqb_refl, Hb2. reflexivity. }
+  destruct Hfind as [y ->].
+  subst f. rewrite infer_rewrite_fn, Ei. apply tylist_eqb_refl.
 Qed.
